@@ -334,10 +334,12 @@ impl<'ast, 's> Visit<'ast> for Finder<'s> {
                         let body = self.txt(&f.body);
                         // body text starts with '{'
                         let inner = &body[1..];
+                        // the bound is evaluated once, like the range expression; contracts speak about `__n`, not about
+                        // the literal the code happens to use
                         let rep = format!(
-                            "{{ let mut __i = {}; while __i < {} {{ __i += 1; {bind}{}",
-                            self.txt(&**a),
+                            "{{ let __n = {}; let mut __i = {}; while __i < __n {{ __i += 1; {bind}{}",
                             self.txt(&**b),
+                            self.txt(&**a),
                             inner
                         );
                         // close the extra block
